@@ -1018,6 +1018,8 @@ class PDFDocument:
             # cannot be in it and cannot be ordered against the Limits.
             raise PDFKeyError((cat, key))
 
+        visited: Set[int] = set()
+
         def lookup(d: Dict[str, Any]) -> Any:
             if "Limits" in d:
                 (k1, k2) = list_value(d["Limits"])
@@ -1031,6 +1033,12 @@ class PDFDocument:
                 return names[key]
             if "Kids" in d:
                 for c in list_value(d["Kids"]):
+                    # a node that is reachable from itself is visited only once
+                    objid = getattr(c, "objid", None)
+                    if objid is not None:
+                        if objid in visited:
+                            continue
+                        visited.add(objid)
                     v = lookup(dict_value(c))
                     if v:
                         return v
